@@ -49,6 +49,12 @@ type progRun struct {
 	maxDev   float64
 	dead     string
 	mbc3     bool
+	// two DECOY machines in the same process, one created before and one after the machine under test, running a
+	// busy program of their own (LCD, sound, DMA, timer, key presses) interleaved with it.  They are not modelled:
+	// the model's prediction is that the machine under test cannot tell.
+	decoys  []*machine
+	decoyCh []chan float32
+	nStarts int
 }
 
 func newProgMachine(rom []byte, l, r chan float32) *machine {
@@ -77,6 +83,31 @@ func (x *progRun) start(rom []byte) string {
 	x.nS, x.ckL, x.ckR = 0, 0, 0
 	x.l = make(chan float32, 1<<16)
 	x.r = make(chan float32, 1<<16)
+	x.decoys, x.decoyCh = nil, nil
+	x.nStarts++
+	mkDecoy := func(k int) {
+		guard(func() string {
+			g := &rng{s: uint64(7919*x.nStarts + k)}
+			w := strings.Fields(progCode(g, progEmphasis()))
+			hdr := w[2]
+			if len(rom) > 0x149 && rom[0x148] <= 3 {
+				// the same cartridge type and ROM size as the machine under test (state wrongly shared between
+				// instances is usually keyed by those), the declared RAM size sometimes different
+				ras := rom[0x149]
+				if g.chance(50) {
+					ras = []uint8{0, 2, 3}[g.intn(3)]
+				}
+				hdr = fmt.Sprintf("%02x%02x%02x", rom[0x147], rom[0x148], ras)
+			}
+			if img := progCodeRom(hdr, w[3:]); img != nil {
+				l, r := make(chan float32, 1<<14), make(chan float32, 1<<14)
+				x.decoyCh = append(x.decoyCh, l, r)
+				x.decoys = append(x.decoys, newProgMachine(img, l, r))
+			}
+			return "ok"
+		})
+	}
+	mkDecoy(0)
 	res := guard(func() string {
 		x.m = newProgMachine(rom, x.l, x.r)
 		return "ok"
@@ -85,6 +116,7 @@ func (x *progRun) start(rom []byte) string {
 		x.m = nil
 		return "construct-failed"
 	}
+	mkDecoy(1)
 	t := rom[0x147]
 	x.mbc3 = t >= 0x0f && t <= 0x13
 	return "ok"
@@ -134,6 +166,7 @@ func (x *progRun) run(n int) string {
 					return "exit"
 				}
 			}
+			x.stepDecoys(k/3 + 5)
 			x.drain()
 			n -= k
 		}
@@ -144,6 +177,29 @@ func (x *progRun) run(n int) string {
 		x.dead = res
 	}
 	return res
+}
+
+func (x *progRun) stepDecoys(n int) {
+	defer func() {
+		for _, ch := range x.decoyCh {
+			for len(ch) > 0 {
+				<-ch
+			}
+		}
+	}()
+	for i, d := range x.decoys {
+		if d == nil {
+			continue
+		}
+		if guard(func() string {
+			for j := 0; j < n; j++ {
+				d.cycle()
+			}
+			return "ok"
+		}) != "ok" {
+			x.decoys[i] = nil // a decoy that panics is dropped (its program is arbitrary)
+		}
+	}
 }
 
 func (x *progRun) st() string {
@@ -266,6 +322,11 @@ func (x *progRun) do(op string) string {
 		out = "nomachine"
 	case len(w) == 3 && w[0] == "btn":
 		x.m.ctl.ButtonAction(controller.Button(atoi(w[1])), w[2] == "1")
+		for i, d := range x.decoys {
+			if d != nil {
+				d.ctl.ButtonAction(controller.Button((atoi(w[1])+3+i)%8), w[2] != "1")
+			}
+		}
 		out = "ok"
 	case len(w) == 2 && w[0] == "run":
 		out = x.run(atoi(w[1]))
@@ -378,6 +439,9 @@ func (x *progRun) runCode(emph string, frames int) {
 		if c.rng.chance(40) {
 			n = 1 + c.rng.intn(400)
 		}
+		if emph == "C22" && c.rng.chance(50) {
+			x.do(fmt.Sprintf("btn %d %d", c.rng.intn(8), c.rng.intn(2)))
+		}
 		x.do(fmt.Sprintf("run %d", n))
 		x.do("st")
 		used += n
@@ -406,7 +470,7 @@ var progRomsFor = map[string][]int{
 	"C02": {0, 2, 5, 6, 7}, "C03": {5, 6, 20, 22}, "C04": {1, 7, 13, 17}, "C05": {1, 7, 13},
 	"C06": {6, 22, 23}, "C07": {6, 10, 22}, "C09": {23, 24, 25, 26}, "C10": {27}, "C12": {13, 14, 15, 16},
 	"C13": {17, 18, 19}, "C14": {17, 18, 19}, "C15": {8, 19}, "C16": {20, 21, 22}, "C17": {8, 9},
-	"C18": {10, 11, 12}, "C19": {10, 11}, "C20": {10, 11, 12}, "C21": {11, 12}, "C22": {0, 1}, "C23": {0, 5},
+	"C18": {10, 11, 12}, "C19": {10, 11}, "C20": {10, 11, 12}, "C21": {11, 12}, "C22": {0, 1}, "C23": {0, 5}, "C08": {23, 24, 25, 26},
 }
 
 func progGen(c *ctx) {
